@@ -6,6 +6,7 @@ import (
 	"strings"
 	"time"
 
+	"github.com/zalf-rpm/Hermes2Go/hermes"
 	"verif/mc"
 	"verif/proj"
 )
@@ -54,6 +55,9 @@ func c11ClsSpecs() []c11ClsSpec {
 	for ptf := 1; ptf <= 4; ptf++ {
 		out = append(out, c11ClsSpec{Class: "texsum", PTF: ptf})
 	}
+	// runs that fill the event tables of a run far beyond what a few years reach: decades of automatic irrigation in
+	// small doses (more than 1200 irrigation events in one run), on two soils
+	out = append(out, c11ClsSpec{Class: "capacity", First: 0}, c11ClsSpec{Class: "capacity", First: 1})
 	return out
 }
 
@@ -152,6 +156,40 @@ func c11ClsRun(sp c11ClsSpec, c *mc.Ctx) {
 				r := proj.Run(root, p.Args(root, fmt.Sprintf("StartYear=%d", sp.Year+off)), nil)
 				judge(fmt.Sprintf("first harvest (first simulated day) %s with StartYear=%d", iso, sp.Year+off), off != 0, off == 0, r)
 			}
+		}
+	case "capacity":
+		years := 19
+		b := e1Base{Soil: []string{"sand20", "loam12"}[sp.First%2], GW: 99, InitW: 0.7, InitN: 40, ET: 3, Start: "2001-03-01"}
+		p := e1Project(b, 365*years+10)
+		p.Rotation = p.Rotation[:1]
+		for y := 0; y < years; y++ {
+			p.Rotation = append(p.Rotation, proj.CropEntry{Crop: "SM", Sow: fmt.Sprintf("%d-04-20", 2001+y), Harvest: fmt.Sprintf("%d-10-05", 2001+y), Rex: 50})
+		}
+		p.Rotation = append(p.Rotation, proj.CropEntry{Crop: "WW", Sow: fmt.Sprintf("%d-10-20", 2001+years), Harvest: fmt.Sprintf("%d-07-30", 2002+years)})
+		// drip-like automatic irrigation: every stage, whenever the soil is below 90 % of its capacity, at most 6 mm a day
+		p.Automan = "crp Sow1 Sow2 har2 TSmin Smomin Smomax Hmomin Hmomax Rainav Rainact TACCU Tbase Irrdv1 Irrdv2 Ndem1 Ndem2 Ndem3 stage1 stage 2 stage 3 Twindow orgF  amount appdat Irrlow irrdep irrmax\n" +
+			c16Row(c16Crop{"SM", "", "", "1004", "1505", "3110", 0}, 8) + "\n" + c16Row(c16Crop{"WW", "", "", "2009", "2510", "1508", 0}, 8) + "\n"
+		p.Config["AutoIrrigation"] = "1"
+		w := seasonWeather(proj.D(p.WeatherStart), 365*years+30)
+		for i := range w {
+			w[i].Precip = 0
+			if i%30 == 0 {
+				w[i].Precip = 8
+			}
+		}
+		p.Weather = w
+		p.Write(root)
+		irrDays := 0
+		r := proj.Run(root, p.Args(root), &hermes.VerifProbe{AfterEvatra: func(g *hermes.GlobalVarsMain, zeit int, ws *hermes.WaterSharedVars) {
+			if g.EffectiveIRRIG > 0 {
+				irrDays++
+			}
+		}})
+		judge(fmt.Sprintf("%d years of silage maize on %s under automatic irrigation in doses of at most 6 mm (%d irrigated days)", years, b.Soil, irrDays), false, true, r)
+		if irrDays > 1250 {
+			c.Count("capacity_runs_with_more_than_1250_irrigation_events", 1)
+		} else {
+			c.Outcome("cls-capacity-fewer-events-than-intended")
 		}
 	case "texsum":
 		for _, sum := range []int{60, 80, 90, 94, 96, 97, 99, 100, 101, 103, 104, 106, 110, 120, 150} {
